@@ -138,7 +138,7 @@ namespace
                     dflt.push_back(i);
             cur.bl = dflt;
         }
-        fix_domain(rng, env.R, cur, true);
+        fix_domain(rng, env.R, cur, false);
         if (cur.custom_bl)
             U.graph->set_base_levels(cur.bl);
         std::vector<std::vector<std::size_t>> earlier_bl{ cur.bl };
@@ -228,6 +228,31 @@ namespace
                 std::string part = d.substr(0, d.find_first_of("[:"));
                 R.violation("C09", "history_dependent:" + part, witness("long-lived graph vs fresh graph: " + d));
             }
+            if (rng.chance(0.15))
+            {
+                // the array update_routes() returned is handed straight back (not a copy): same state as for a copy of it on a
+                // fresh graph. (accumulate(a, a) - source array as destination - is NOT demanded: no statement promises it, and the
+                // library does not support it)
+                arr_t returned_copy = hout;
+                GraphBundle F2 = build_graph(*fresh_grid, ops);
+                if (cur.custom_bl)
+                    F2.graph->set_base_levels(cur.bl);
+                if (!cur.mask.empty())
+                    F2.graph->set_mask(to_mask(env.g, cur.mask));
+                const arr_t& hf2 = F2.graph->update_routes(returned_copy);
+                Digest DF2 = state_digest(*F2.graph, flat_vec(hf2), single_final, src);
+                const arr_t& hu2 = U.graph->update_routes(hout);
+                Digest DU2 = state_digest(*U.graph, flat_vec(hu2), single_final, src);
+                std::string da = DU2.diff(DF2);
+                if (!da.empty())
+                    R.violation("C09", "returned_array_as_next_input:" + da.substr(0, da.find_first_of("[:")), witness("update_routes(update_routes(z)) with the returned array handed straight back vs a fresh graph given a copy: " + da));
+                R.count("c09.aliased_arguments_checked");
+                // bring the long-lived graph back to the state of the current inputs
+                arr_t zin4 = to_arr(env.g, cur.z);
+                if (with_nodata)
+                    write_nodata_under_mask(nodata, cur.mask, zin4);
+                U.graph->update_routes(zin4);
+            }
             if (repeat_check)
             {
                 // (3) repeating the call reproduces the state bit for bit
@@ -297,7 +322,7 @@ namespace
                 }
                 cur.bl = sorted_unique(bl);
                 cur.custom_bl = true;
-                fix_domain(rng, env.R, cur, true);
+                fix_domain(rng, env.R, cur, false);
                 if (!cur.mask.empty())
                     U.graph->set_mask(to_mask(env.g, cur.mask));  // fix_domain may have unmasked a base level
                 std::vector<std::size_t> order = cur.bl;
@@ -310,6 +335,27 @@ namespace
                 change_since_update = true;
                 R.count("c09.event.set_base_levels");
             }
+            else if (u < 0.68 && rng.chance(0.2))
+            {
+                // a mask of another shape is refused; the graph is then used as it is (no valid request repairs anything): the
+                // mask in force is still the previous one, and the comparison with the fresh graph at the next update decides
+                // whether the refused request left anything behind
+                xt::xarray<bool> bad = xt::xarray<bool>::from_shape(mismatched_shape(env.g, rng));
+                bad.fill(rng.chance(0.5));
+                try
+                {
+                    if (rng.chance(0.5))
+                        U.graph->set_mask(bad);
+                    else
+                        U.graph->set_mask(std::move(bad));
+                    R.count("c09.mask_shape_mismatch_accepted");
+                }
+                catch (const std::runtime_error&)
+                {
+                    R.count("c09.mask_shape_mismatch_refused");
+                }
+                trace.push_back("set_mask(wrong shape, refused)");
+            }
             else if (u < 0.68)
             {
                 std::string cls;
@@ -317,26 +363,20 @@ namespace
                 if (m.empty())
                     m.assign(env.R.n, 0);
                 cur.mask = m;
-                fix_domain(rng, env.R, cur, true);
+                fix_domain(rng, env.R, cur, false);
                 if (cur.custom_bl)
                     U.graph->set_base_levels(cur.bl);
-                if (rng.chance(0.2))
+                // the mask is handed over as a named array, a temporary or an element-wise expression
                 {
-                    // a mask of another shape is refused and leaves the mask in force untouched (the comparison with the
-                    // fresh graph below decides whether anything leaked)
-                    xt::xarray<bool> bad = xt::xarray<bool>::from_shape(mismatched_shape(env.g, rng));
-                    bad.fill(true);
-                    try
-                    {
-                        U.graph->set_mask(bad);
-                        R.count("c09.mask_shape_mismatch_accepted");
-                    }
-                    catch (const std::runtime_error&)
-                    {
-                        R.count("c09.mask_shape_mismatch_refused");
-                    }
+                    xt::xarray<bool> named = to_mask(env.g, cur.mask);
+                    const int how = static_cast<int>(rng.below(3));
+                    if (how == 0)
+                        U.graph->set_mask(named);
+                    else if (how == 1)
+                        U.graph->set_mask(to_mask(env.g, cur.mask));
+                    else
+                        U.graph->set_mask(named || xt::zeros<bool>(named.shape()));
                 }
-                U.graph->set_mask(to_mask(env.g, cur.mask));
                 trace.push_back("set_mask(" + cls + ")");
                 change_since_update = true;
                 R.count("c09.event.set_mask");
@@ -561,7 +601,7 @@ namespace
                         }
                     }
             }
-            fix_domain(rng, env.R, in, true);
+            fix_domain(rng, env.R, in, false);
             hash_inputs(ch, in);
             trace.push_back("update(" + in.field_cls + "," + in.mask_cls + "," + in.bl_cls + ")");
             apply_inputs(*M.graph, env.g, in);
@@ -840,7 +880,19 @@ namespace
         std::string what;
         try
         {
-            gb = build_graph(*env.grid, ops);
+            if (ref.accept && rng.chance(0.3))
+            {
+                // through a sequence object that first held another valid sequence (other snapshots, other direction)
+                static const std::vector<std::vector<OpSpec>> previous = {
+                    { op_single(), op_snap("zeta", true, true), op_multi(1.0), op_snap("mid", true, false) },
+                    { op_multi(2.0), op_snap("alpha", true, false), op_single(), op_snap("omega", true, true) },
+                    { op_pflood(), op_single() },
+                };
+                gb = build_graph_via_reassigned_sequence(*env.grid, ops, previous[rng.below(previous.size())]);
+                R.count("c20.built_through_reassigned_sequence");
+            }
+            else
+                gb = build_graph(*env.grid, ops);
             built = true;
         }
         catch (const std::exception& e)
